@@ -1,6 +1,7 @@
 package jgen
 
 import (
+	"encoding/base64"
 	stdjson "encoding/json"
 	"fmt"
 	"reflect"
@@ -283,6 +284,85 @@ func intLit(rt *rapid.T, bits int, signed bool) string {
 	}
 }
 
+// floatLit composes a number literal: every digit count of the integer part and of the fraction around the
+// precision limits of float32 / float64 / uint64, exponents around the range limits, and the malformed forms.
+func floatLit(rt *rapid.T) string {
+	var sb strings.Builder
+	if rapid.IntRange(0, 2).Draw(rt, "neg") == 0 {
+		sb.WriteByte('-')
+	}
+	digits := "98765432101234567890123456789012345678901234567890"
+	switch rapid.IntRange(0, 5).Draw(rt, "ipart") {
+	case 0:
+		sb.WriteByte('0')
+	case 1:
+		sb.WriteString(rapid.SampledFrom([]string{"1", "9", "16777216", "16777217", "9007199254740992", "9007199254740993", "18446744073709551615", "18446744073709551616", "179769313486231570", "340282346638528859811704183484516925440", "340282346638528859811704183484516925441"}).Draw(rt, "iknown"))
+	case 2:
+		sb.WriteString("00"[:rapid.IntRange(1, 2).Draw(rt, "lz")] + "7") // leading zero: not a JSON number
+	default:
+		sb.WriteString(digits[:rapid.IntRange(1, 40).Draw(rt, "ilen")])
+	}
+	switch rapid.IntRange(0, 4).Draw(rt, "fpart") {
+	case 0, 1:
+	case 2:
+		sb.WriteString("." + digits[10:10+rapid.IntRange(1, 30).Draw(rt, "flen")])
+	case 3:
+		sb.WriteString("." + strings.Repeat("0", rapid.IntRange(1, 330).Draw(rt, "fz")) + "1")
+	default:
+		sb.WriteString(rapid.SampledFrom([]string{".", ".e1", ".5", ".0", ".00000000000000000000000000000000000000000000000000"}).Draw(rt, "fodd"))
+	}
+	if rapid.IntRange(0, 2).Draw(rt, "hasexp") == 0 {
+		sb.WriteString(rapid.SampledFrom([]string{"e", "E"}).Draw(rt, "e"))
+		sb.WriteString(rapid.SampledFrom([]string{"", "+", "-", "-", ""}).Draw(rt, "esign"))
+		sb.WriteString(rapid.SampledFrom([]string{"0", "1", "2", "15", "16", "22", "23", "37", "38", "39", "44", "45", "46", "307", "308", "309", "323", "324", "325", "400", "00", "007", "", "1.5", "99999999999"}).Draw(rt, "exp"))
+	}
+	return sb.String()
+}
+
+// b64Lit composes a quoted base64 text for []byte targets: random content of every length 0..40 in the
+// standard alphabet, with the variations encoding/json's decoder accepts (line breaks inside) or rejects
+// (missing / extra padding, URL alphabet, spaces, foreign bytes), some characters written as \u escapes.
+func b64Lit(rt *rapid.T) string {
+	raw := rapid.SliceOfN(rapid.Byte(), 0, 40).Draw(rt, "b64raw")
+	enc := base64.StdEncoding.EncodeToString(raw)
+	pos := func() int { return rapid.IntRange(0, len(enc)).Draw(rt, "b64pos") }
+	switch rapid.IntRange(0, 11).Draw(rt, "b64var") {
+	case 0:
+		enc = base64.RawStdEncoding.EncodeToString(raw)
+	case 1:
+		enc = base64.URLEncoding.EncodeToString(raw)
+	case 2:
+		p := pos()
+		enc = enc[:p] + "\n" + enc[p:]
+	case 3:
+		p := pos()
+		enc = enc[:p] + "\r\n" + enc[p:]
+	case 4:
+		p := pos()
+		enc = enc[:p] + " " + enc[p:]
+	case 5:
+		enc += "="
+	case 6:
+		if len(enc) > 0 {
+			enc = enc[:len(enc)-1]
+		}
+	case 7:
+		p := pos()
+		enc = enc[:p] + rapid.SampledFrom([]string{"!", "\x00", "\u00e9", "-", "_", "=", "\t"}).Draw(rt, "b64bad") + enc[p:]
+	}
+	q, _ := stdjson.Marshal(enc)
+	if len(enc) > 0 && rapid.IntRange(0, 3).Draw(rt, "b64esc") == 0 {
+		// one character as a \u escape (the text is unescaped before it is base64-decoded)
+		p := rapid.IntRange(0, len(enc)-1).Draw(rt, "b64escpos")
+		if enc[p] >= 0x20 && enc[p] < 0x7f && enc[p] != '"' && enc[p] != '\\' {
+			q1, _ := stdjson.Marshal(enc[:p])
+			q2, _ := stdjson.Marshal(enc[p+1:])
+			return string(q1[:len(q1)-1]) + fmt.Sprintf("\\u%04x", enc[p]) + string(q2[1:])
+		}
+	}
+	return string(q)
+}
+
 func wrongValue(rt *rapid.T, sb *strings.Builder) {
 	sb.WriteString(rapid.SampledFrom([]string{"null", "true", "0", "1.5", `"s"`, `""`, "[]", "{}", "[1]", `{"a":1}`, `"1"`, `"true"`, `"null"`, "-1", `[null]`, `[[]]`, `{"A":{}}`}).Draw(rt, "wrong"))
 }
@@ -376,6 +456,10 @@ func genDocFor(rt *rapid.T, sb *strings.Builder, t reflect.Type, o DocOpts, dept
 	case reflect.Uint32:
 		sb.WriteString(intLit(rt, 32, false))
 	case reflect.Float32, reflect.Float64:
+		if rapid.Bool().Draw(rt, "genfloat") {
+			sb.WriteString(floatLit(rt))
+			return
+		}
 		sb.WriteString(rapid.SampledFrom(numPool).Draw(rt, "num"))
 	case reflect.String:
 		sb.WriteString(GenStringLit(rt))
@@ -385,6 +469,10 @@ func genDocFor(rt *rapid.T, sb *strings.Builder, t reflect.Type, o DocOpts, dept
 		genDocFor(rt, sb, t.Elem(), o, depth+1)
 	case reflect.Slice:
 		if t.Elem().Kind() == reflect.Uint8 && t.Elem().PkgPath() == "" {
+			if rapid.Bool().Draw(rt, "genb64") {
+				sb.WriteString(b64Lit(rt))
+				return
+			}
 			sb.WriteString(strconv.Quote(rapid.SampledFrom([]string{"", "AA==", "AAE=", "AAEC", "aGVsbG8gd29ybGQ=", "AA", "A", "AA=", "====", "aGVsbG8gd29ybGQ", "a b=", "AAEC\n", "////", "+/+/", "-_-_", "QUJD\\n"}).Draw(rt, "b64")))
 			return
 		}
